@@ -69,6 +69,32 @@ def check_step(expected_events, ups, wframes) -> list[str]:
     return out
 
 
+_DIAG = None
+
+
+def diagnostic():
+    """Diagnostic counters of AshProtocol (see ashworld.diagnostic_attrs): probe = 12 rounds over the mixed event list."""
+    global _DIAG
+    if _DIAG is None:
+        from mc.env.ashworld import diagnostic_attrs
+
+        holder = {}
+
+        def make():
+            holder["w"] = World()
+            return holder["w"].proto
+
+        def drive(_proto):
+            w = holder["w"]
+            for _ in range(12):
+                for name in REDUCED:
+                    w.feed(reduced_event(name, w.ref.expected))
+                    yield
+
+        _DIAG = diagnostic_attrs(make, drive)
+    return _DIAG
+
+
 class World:
     EVENTS = alphabet()
 
@@ -109,7 +135,7 @@ class World:
         return self.viol
 
     def canon(self):
-        return (scalar_state(self.proto), self.ref.expected)
+        return (scalar_state(self.proto, skip=diagnostic()), self.ref.expected)
 
     def close(self):
         pass
@@ -147,7 +173,7 @@ def main(tier: str) -> int:
     def on_tr(src, label, dst):
         edges[(src, tuple(label))] = dst
 
-    g = explore.esbfs(World, {}, on_transition=on_tr)
+    g = explore.esbfs(World, {}, on_transition=on_tr, max_states=20000)
     for v, params, hist, label in g.violations:
         evs = [World.EVENTS[c] for c in hist]
         last = evs[-1] if evs else None
@@ -224,6 +250,7 @@ def main(tier: str) -> int:
         "stateless_depth": depth,
         "distinct_stateless_traces": len(sigs),
         "accepting_transitions": accepted,
+        "abstracted_diagnostic_attributes": list(diagnostic()),
         "long_streams": long_runs,
         "rule": "ES-BFS over (all scalar attributes of AshProtocol, reference expected number); every state x 181 well-formed frames; "
                 "then all sequences of the stated depth over a 14-event relative alphabet run without merging and compared edge by edge with the merged graph",
